@@ -22,8 +22,9 @@ def Phase.isDone : Phase → Bool
   | _ => false
 
 structure FCloseInv (cb : Cfg) (f : Fwd) : Prop where
-  /-- `forward` returns `Ok` only after `recv_any` reported end-of-stream -/
-  okEos : f.ph = .done .ok → Out.eos ∈ f.a.outs
+  /-- `forward` returns `Ok` only after the upstream receiver saw `Finished` (`recv_any` reported
+  end-of-stream, or `Finished` ended a chunk stream and the next `recv_any` returned `None` at once) -/
+  okEos : f.ph = .done .ok → (Out.eos ∈ f.a.outs ∨ f.a.r.finished = true)
   /-- the downstream sender is dropped only after `forward` returned -/
   dropped : f.b.s.dropped = true → f.ph.isDone = true
   /-- the upstream receiver is closed only by the `Event::Closed` branch … -/
@@ -44,9 +45,10 @@ theorem fclose_init (ca cb : Cfg) : FCloseInv cb (finit ca cb) := by
 theorem fclose_weak (cb : Cfg) (f f' : Fwd) (hi : FCloseInv cb f)
     (h1 : f'.ph = f.ph) (h2 : f'.a.outs = f.a.outs) (h3 : f'.b.s.dropped = f.b.s.dropped)
     (h4 : f'.a.r.closed = f.a.r.closed) (h5 : f'.closedSeen = f.closedSeen) (h6 : f'.lostDown = f.lostDown)
-    (h7 : f'.lostUp = f.lostUp) (h8 : ∀ g, f.b.s.closed = some g → f'.b.s.closed = some g) : FCloseInv cb f' := by
+    (h7 : f'.lostUp = f.lostUp) (h8 : ∀ g, f.b.s.closed = some g → f'.b.s.closed = some g)
+    (h9 : f.a.r.finished = true → f'.a.r.finished = true) : FCloseInv cb f' := by
   obtain ⟨i1, i2, i3, i4, i5, i6⟩ := hi
-  refine ⟨by rw [h1, h2]; exact i1, by rw [h1, h3]; exact i2, by rw [h4, h5]; exact i3, ?_, ?_, by rw [h1, h7, h2]; exact i6⟩
+  refine ⟨by rw [h1, h2]; exact fun hp => (i1 hp).imp id h9, by rw [h1, h3]; exact i2, by rw [h4, h5]; exact i3, ?_, ?_, by rw [h1, h7, h2]; exact i6⟩
   · intro hs
     rw [h5] at hs
     have := i4 hs
@@ -91,7 +93,7 @@ theorem stepOrSame_closed (c : Cfg) (st st' : State) (h : StepOrSame c st st') (
 theorem fclose_finish (cb : Cfg) (f f' : Fwd) (r : FwdResult) (hi : FCloseInv cb f) (h1 : f'.ph = .done r)
     (h4 : f'.a.r.closed = f.a.r.closed) (h5 : f'.closedSeen = f.closedSeen)
     (h8 : ∀ g, f.b.s.closed = some g → f'.b.s.closed = some g)
-    (hok : r = .ok → Out.eos ∈ f'.a.outs)
+    (hok : r = .ok → (Out.eos ∈ f'.a.outs ∨ f'.a.r.finished = true))
     (hes : r = .errSend → f'.lostDown = true ∨ ∃ g, f'.b.s.closed = some g ∧ (cb.ovr = true → g = false))
     (her : r = .errRecv → f'.lostUp = true ∨ Out.tooManyPorts ∈ f'.a.outs) : FCloseInv cb f' := by
   obtain ⟨i1, i2, i3, i4, i5, i6⟩ := hi
@@ -123,6 +125,7 @@ theorem fclose_env (v : Pairing) (ca cb : Cfg) (f f' : Fwd) (hi : FCloseInv cb f
         have hv := up_env_view ca f.a a' l hl hs
         simp only [aview, Prod.mk.injEq] at hv
         exact fclose_weak cb f _ hi rfl hv.2.2.1 rfl hv.2.2.2 rfl rfl rfl (fun _ hg => hg)
+          (finished_stable ca f.a a' l hs)
     · simp at h
   · intro l h
     simp only [fstep] at h
@@ -136,7 +139,7 @@ theorem fclose_env (v : Pairing) (ca cb : Cfg) (f f' : Fwd) (hi : FCloseInv cb f
         have hv := down_env_view cb f.b b' l hl hs
         simp only [bview, Prod.mk.injEq] at hv
         exact fclose_weak cb f _ hi rfl rfl hv.2.2.2.2 rfl rfl rfl rfl
-          (fun g hg => closed_stable cb f.b b' l hs g hg)
+          (fun g hg => closed_stable cb f.b b' l hs g hg) (fun hf => hf)
     · simp at h
 
 theorem fclose_recvAny (v : Pairing) (ca cb : Cfg) (f f' : Fwd) (hi : FCloseInv cb f)
@@ -167,14 +170,18 @@ theorem fclose_recvAny (v : Pairing) (ca cb : Cfg) (f f' : Fwd) (hi : FCloseInv 
         exact fclose_running cb f _ hi h0 rfl rfl hcl rfl h8
       · rename_i ho
         obtain rfl := Option.some.inj h
-        exact fclose_finish cb f _ .ok hi rfl hcl rfl h8 (fun _ => by simp [houts, ho]) (by simp) (by simp)
+        exact fclose_finish cb f _ .ok hi rfl hcl rfl h8 (fun _ => Or.inl (by simp [houts, ho])) (by simp) (by simp)
       · rename_i ho
         obtain rfl := Option.some.inj h
         exact fclose_finish cb f _ .errRecv hi rfl hcl rfl h8 (by simp) (by simp)
           (fun _ => Or.inr (by simp [houts, ho]))
       · obtain rfl := Option.some.inj h
         exact fclose_running cb f _ hi h0 (by rw [hph]; rfl) rfl hcl rfl h8
-    · simp at h
+    · split at h
+      · rename_i hfin
+        obtain rfl := Option.some.inj h
+        exact fclose_finish cb f _ .ok hi rfl rfl rfl h8 (fun _ => Or.inr hfin) (by simp) (by simp)
+      · simp at h
   · simp at h
 
 end Remoc.Link
